@@ -67,6 +67,7 @@ def seq_programs(tier, seed):
         ps += list(gen.gen_seq_core(2, [0, 2, None], flav="aa"))
         ps += list(gen.gen_seq_random(rng, 600))
         ps += list(gen.gen_seq_futs())
+        ps += list(gen.gen_seq_hidden(caps=(2,), depth=3, flavs=("ss",)))
     else:
         ps = list(gen.gen_seq_exhaustive(2, [0, 1, 2, None], flavs=("ss", "aa", "sa", "as")))
         ps += list(gen.gen_seq_exhaustive(3, [0, 1]))
@@ -74,7 +75,14 @@ def seq_programs(tier, seed):
         ps += list(gen.gen_seq_core(4, [1], flav="aa"))
         ps += list(gen.gen_seq_random(rng, 20000, lengths=(4, 5, 6, 8, 10, 12)))
         ps += list(gen.gen_seq_futs(caps=(0, 1, 2, 3), ks=(3, 4, 5), flavs=("aa", "sa")))
+        ps += list(gen.gen_seq_hidden(caps=(1, 2, 3), depth=3, flavs=("ss", "aa")))
     return ps
+
+
+def hidden_programs(tier, seed):
+    if tier == "quick":
+        return list(gen.gen_seq_hidden(caps=(2,), depth=3, flavs=("ss",)))
+    return list(gen.gen_seq_hidden(caps=(1, 2, 3), depth=3, flavs=("ss", "aa")))
 
 
 def handle_programs(tier, seed):
@@ -144,6 +152,32 @@ def integrity_race_sweep(nq, kmax, tag):
     return fn
 
 
+def lockhold_sweep(nq, kmax, tag):
+    """programs_fn: timed call x third-party call combinations (gen.lockhold_combos); the third party (process 1) is cut before each of
+    its hooks of the race phase, in particular while it holds the channel lock, exactly when the timed call's deadline expires"""
+    def fn(tier, seed):
+        rng = random.Random("%s/%d" % (tag, seed))
+        combos = gen.lockhold_combos()
+        rng.shuffle(combos)
+        if tier == "quick":
+            combos, km, reps = combos[:nq], kmax[0], 1
+        else:
+            km, reps = kmax[1], 3
+        out = []
+        for combo in combos:
+            for _ in range(reps):
+                base = gen.gen_lockhold(rng, combo)
+                for k in range(1, km + 1):
+                    p = json.loads(json.dumps(base))
+                    st = dict(p.get("strat", {}))
+                    st.update({"freeze": [1, k, 1, 1], "p_spurious": 0.3, "max_spurious": 2, "seed": rng.randrange(1 << 30)})
+                    p["strat"] = st
+                    p["execs"] = 1
+                    out.append(p)
+        return out
+    return fn
+
+
 def discrace_sweep(nq, kmax, tag):
     """programs_fn: waiter kind x disconnecting event combinations (gen.disc_combos), the first waiter frozen before each of
     its first kmax scheduling points of the race phase, running alone until then (one preemption at a chosen point)"""
@@ -182,7 +216,8 @@ PLANS = {
                       R("async", (150, 3000), (3, 6), None, True), R("timed", (150, 3000), (3, 6), None, True),
                       R("chain", (150, 3000), (2, 6), None, True), R("close", (200, 3000), (3, 6), None, True),
                       R("pairsweep", (0, 0), (1, 1), None, True, programs_fn=freeze_sweep("pair", (30, 800), (40, 60), "pairsweep", victims=(0, 1), from_phase=3, solo=1)),
-                      R("discrace", (0, 0), (1, 1), None, True, programs_fn=discrace_sweep(48, (40, 60), "discrace03"))]),
+                      R("discrace", (0, 0), (1, 1), None, True, programs_fn=discrace_sweep(48, (40, 60), "discrace03")),
+                      R("seqhidden", (0, 0), (1, 1), None, True, programs_fn=hidden_programs)]),
     "C05": dict(mc=MC("timed", "async", thorough=["t_async"], bounded=["t_timed"]) + MCA("2p"), spec_l1l0=True, runs=[R("general", (250, 4000), (3, 6), "C05", True), R("timed", (200, 3000), (3, 6), "C05", True),
                       R("async", (200, 3000), (3, 6), "C05", True), R("chain", (100, 2000), (2, 6), "C05", True),
                       R("discrace", (0, 0), (1, 1), "C05", True, programs_fn=discrace_sweep(16, (40, 60), "discrace05"))]),
@@ -208,7 +243,8 @@ PLANS = {
                                         R("discrace", (0, 0), (1, 1), "C11", True, own_all=True, programs_fn=discrace_sweep(48, (40, 60), "discrace11"))]),
     "C12": dict(mc=MC("handles", "closeclone", bounded=["t_handles"]) + MCA("1p"), runs=[R("hseq", (0, 0), (1, 1), "C12", True, programs_fn=handle_programs, own_all=True),
                                         R("handles", (300, 5000), (3, 6), "C12", True)]),
-    "C13": dict(mc=MC("timed", bounded=["t_timed"]), runs=[R("timed", (400, 6000), (4, 8), "C13", True), R("chain", (150, 3000), (2, 6), "C13", True)]),
+    "C13": dict(mc=MC("timed", bounded=["t_timed"]), runs=[R("timed", (400, 6000), (4, 8), "C13", True), R("chain", (150, 3000), (2, 6), "C13", True),
+                                                           R("lockhold", (0, 0), (1, 1), "C13", True, own_all=True, programs_fn=lockhold_sweep(24, (12, 16), "lockhold13"))]),
     "C04": dict(mc=MC("mixed"), runs=[R("integrity_" + pl, (n, n * 12), (2, 4), "C04", True, own_all=True)
                                       for pl, n in (("u8", 260), ("u16", 120), ("w1", 60), ("h4", 60), ("b3", 60), ("p5", 60), ("z0", 40), ("z64", 40))]
                 + [R("integrity_race", (0, 0), (1, 1), "C04", True, own_all=True, programs_fn=integrity_race_sweep((30, 600), (30, 45), "integrace"))],
@@ -225,10 +261,12 @@ PLANS = {
                                         rawmon=[("HBMonitor", "HBMonitor.cfg")])]),
     "C16": dict(mc=MC("async", thorough=["t_async"]), runs=[R("poll", (400, 8000), (4, 8), "C16", True),
                                       R("pollfreeze", (0, 0), (1, 1), "C16", True, programs_fn=freeze_sweep("poll", (14, 200), (30, 45), "pollfreeze"))]),
-    "C17": dict(mc=[dict(module="SpinMutex", cfg=("MC_SpinMutex.cfg", "MC_SpinMutex.cfg"))], l2=False, tlaps="SpinMutexProof",
+    "C17": dict(mc=[dict(module="SpinMutex", cfg=("MC_SpinMutex.cfg", "MC_SpinMutex.cfg")),
+                    dict(module="SpinCond", cfg=("MC_SpinCond.cfg", "MC_SpinCond.cfg"), workers=(2, 2))], l2=False, tlaps="SpinMutexProof",
                 runs=[R("mutex", (200, 6000), (2, 6), None, False, rawmon=[("SpinMutexTrace", "SpinMutexTrace.cfg"), ("HBMonitor", "HBMonitor.cfg")]),
-                      R("mutexfreeze", (200, 6000), (2, 4), None, False, rawmon=[("SpinMutexTrace", "SpinMutexTrace.cfg"), ("HBMonitor", "HBMonitor.cfg")])],
-                assume=["the back-off iteration counts of spin_cond are abstracted to an unbounded retry loop; a frozen lock holder is observed for a bounded number of failed attempts only"]),
+                      R("mutexfreeze", (200, 6000), (2, 4), None, False, rawmon=[("SpinMutexTrace", "SpinMutexTrace.cfg"), ("HBMonitor", "HBMonitor.cfg")]),
+                      R("spincond", (120, 3000), (1, 1), None, False, rawmon=[("SpinCondTrace", "SpinCondTrace.cfg")])],
+                assume=["in SpinMutex.tla the back-off of spin_cond is an unbounded retry loop (its iteration structure is covered separately by SpinCond.tla / SpinCondTrace with a scripted condition); a frozen lock holder is observed for a bounded number of failed attempts only"]),
     "C18": dict(mc=MCA("1p"), l2=False,
                 runs=[R("seq", (0, 0), (1, 1), None, True, programs_fn=seq_programs)],
                 assume=["single-thread call sequences: exhaustive up to length 2 (quick) / 3 (thorough) over a 58-call alphabet per capacity, random longer ones"]),
@@ -360,6 +398,12 @@ def run_one_config(prop, run, tier, seed, wd, tag, stats, findings, programs=Non
                 stats["stuck"] += 1
             if z.get("budget"):
                 stats["budget"] += 1
+            d1 = done.get(x, {})
+            gi1 = off + d1.get("prog", 0)
+            if gi1 < len(programs) and not z.get("stuck"):
+                for det in epilogue_findings(ls, programs[gi1]):
+                    findings.append(dict(kind="stuck", prog=programs[gi1], seed=d1.get("seed", 0), detail=det))
+                    stats["stuck"] += 1
         if not good:
             continue
         if run.get("monitor"):
@@ -444,12 +488,57 @@ ORD_EXPECTED = {
 STUCK_OWNERS = {"C06"}
 
 
+BLOCKING_OPS = {"send", "recv", "iter_next", "await"}
+
+
+def never_blocks(b):
+    """calls that return at once in the reference model whatever the channel state: everything except the blocking calls and
+    timed calls with a positive duration"""
+    if b["op"] in BLOCKING_OPS:
+        return False
+    if b["op"] in ("send_timeout", "send_option_timeout", "recv_timeout") and b.get("d", 0) > 0:
+        return False
+    return True
+
+
+def epilogue_findings(ls, prog):
+    """Calls that only the harness' epilogue close released although the reference model says they return by themselves:
+    (a) a timed call whose deadline had passed, (b) in a single-threaded program, any call that never blocks."""
+    out = []
+    np_ = len(prog.get("procs", []))
+    open_t, cur = {}, None
+    for l in ls:
+        if l.startswith('{"e":"B"'):
+            e = json.loads(l)
+            if e["p"] < np_:
+                if e["op"] in ("send_timeout", "send_option_timeout", "recv_timeout") and e.get("d", 0) > 0:
+                    open_t[e["p"]] = e
+                if e["p"] == 0:
+                    cur = e
+            elif e["p"] == np_ and e["op"] == "close":
+                late = [b for b in open_t.values() if e["t"] >= b["t"] + b["d"]]
+                if late:
+                    out.append(dict(stuck_ops=[dict(op=late[0]["op"], pend="deadline passed, released only by the epilogue close")],
+                                    what="a timed call did not return after its deadline"))
+                elif np_ == 1 and cur is not None and never_blocks(cur):
+                    out.append(dict(stuck_ops=[dict(op=cur["op"], pend="released only by the epilogue close")],
+                                    what="a call of a single-threaded program blocked"))
+                break
+        elif l.startswith('{"e":"E"'):
+            e = json.loads(l)
+            if e["p"] in open_t and open_t[e["p"]]["o"] == e["o"]:
+                del open_t[e["p"]]
+            if cur is not None and e["o"] == cur["o"]:
+                cur = None
+    return out
+
+
 def owns_finding(prop, f):
     k = f["kind"]
     if k in ("l0", "l1", "raw"):
         return True
     if k == "stuck":
-        if prop == "C06":
+        if prop in ("C06", "C03", "C18"):
             return True
         ops = {o.get("op") for o in f["detail"].get("stuck_ops", [])}
         pend = {o.get("pend") for o in f["detail"].get("stuck_ops", [])}
@@ -670,6 +759,10 @@ def replay(prop, path):
         log("  execution is stuck again:", json.dumps(z[-1]))
     kind = rp.get("kind")
     det = rp.get("detail", {})
+    if kind == "stuck" and det.get("what"):
+        for det2 in epilogue_findings(list(open(r["hist"], errors="replace")), prog):
+            bad = True
+            log("  again: %s (%s)" % (det2["what"], det2["stuck_ops"][0]["op"]))
     if kind == "l0" and det.get("monitor"):
         v = vlib.validate_trace("KanalHistory", "KanalHistory_%s.cfg" % det["monitor"], r["hist"], wd)
         if v["rejected"]:
